@@ -4,7 +4,7 @@ import ast
 from ..core import AnalysisError, where, norm
 from ..liftforms import LifterModel
 from ..lifter import LiftError, Term, show
-from ..irsets import rw_sets, reads_of, mem_mentions, load_effects_ref, load_cc_ref, cc_flags
+from ..irsets import rw_sets, reads_of, mem_mentions, load_effects_ref, load_cc_ref, cc_flags, load_getr_spec
 from .c04 import cc_of_name
 
 FAMILIES = {'j': 'jcc', 'set': 'setcc', 'cmov': 'cmovcc'}
@@ -33,6 +33,8 @@ def run(ctx, report):
     sem = L.sem
     eff = load_effects_ref()
     ccref = load_cc_ref()
+    spec = load_getr_spec(ctx)
+    report.analysed['get_r_recursion'] = dict((k, ['%s%s' % (f, '' if fw else ' (mem_read dropped)') for f, fw in v]) for k, v in spec.items())
     report.explanation = (
         'For every live decoder variant x operand form whose mnemonic is in ref/ia32_effects.ref (integer core, plus the x87/SSE instructions with implicit '
         'flag/register effects), the read set (identifiers and memory cells reached by get_r(mem_read=True) semantics over the E4 template, plus the address of '
